@@ -192,6 +192,7 @@ class EngineWorld:
         self.on_stop_hooks: list[Callable[[], None]] = []
         self.observers: list[Any] = []
         self.ctx_flags: set[str] = set()     # perturbations seen in this engine lifetime: err, cf, edit
+        self.ever_started: set[str] = set()
         self.hw = SimHardware()
         self.plog = ProbeLog()
         self.plog.on_event = self._probe_event
@@ -241,19 +242,29 @@ class EngineWorld:
         e = (self.tick_no, kind, token, extra)
         self.effects.append(e)
         self.rec.log("fx", *e)
-        for o in self.observers:
-            f = getattr(o, "on_effect", None)
-            if f:
-                f(e)
+        try:        # called from tag listeners inside the engine: see _probe_event
+            for o in self.observers:
+                f = getattr(o, "on_effect", None)
+                if f:
+                    f(e)
+        except Exception as ex:   # noqa
+            import traceback
+            self.harness_failure = f"observer failed inside an effect callback: {ex!r}\n{traceback.format_exc()}"
 
     def _probe_event(self, ev: tuple) -> None:
-        self.rec.log("cmd", *ev)
-        if ev[1] == "exec" and ev[4] == 0:
-            self.effect("cmd", f"{ev[2]}:{ev[5]}", ev[3])
-        for o in self.observers:
-            f = getattr(o, "on_probe", None)
-            if f:
-                f(ev)
+        # runs inside a UOD command callback, i.e. inside the engine: an exception of the harness raised here would be
+        # taken for a command failure and silently change the run - it is recorded and reported as HARNESS-ERROR instead
+        try:
+            self.rec.log("cmd", *ev)
+            if ev[1] == "exec" and ev[4] == 0:
+                self.effect("cmd", f"{ev[2]}:{ev[5]}", ev[3])
+            for o in self.observers:
+                f = getattr(o, "on_probe", None)
+                if f:
+                    f(ev)
+        except Exception as ex:   # noqa
+            import traceback
+            self.harness_failure = f"observer failed inside a probe callback: {ex!r}\n{traceback.format_exc()}"
 
     def tag(self, name: str):
         return self.engine.tags[name].get_value()
@@ -357,6 +368,15 @@ class EngineWorld:
                 raise
             self.exceptions.append((self.tick_no, "tick", repr(ex)))
             self.res.add("C13", "C13.tick_raised", type(ex).__name__, self.tick_no, repr(ex))
+        # lines that have started at some time in the current run (a macro body line is reset when the macro is called
+        # again; it has started all the same)
+        if any(e[0] == self.tick_no and e[1] == "start" for e in self.events[-8:]):
+            self.ever_started = set()
+        try:
+            ms = self.method_state()
+            self.ever_started |= set(ms.started_line_ids) | set(ms.executed_line_ids) | set(ms.failed_line_ids)
+        except Exception:
+            pass
         self.res.sim_seconds += inc
         self.res.steps += 1
         self.rec.log("tick", self.tick_no, inc, self.state, self.tag("Method Status"), self.tag("Run Id"),
@@ -368,6 +388,8 @@ class EngineWorld:
                 f(self, inc)
 
     def finish(self) -> None:
+        if getattr(self, "harness_failure", None):
+            raise HarnessError(self.harness_failure)
         for o in self.observers:
             f = getattr(o, "at_end", None)
             if f:
